@@ -54,7 +54,7 @@ CFG_FLAGS = {
     "p64":   ["-DDISABLE_ASM"],
     "p32":   ["-DDISABLE_ASM", "-U__SIZEOF_INT128__"],
 }
-SAN = ["-O1", "-g", "-fsanitize=address,undefined", "-fno-sanitize-recover=undefined", "-fno-omit-frame-pointer"]
+SAN = ["-O1", "-g", "-fsanitize=address,undefined", "-fsanitize-recover=all", "-fno-omit-frame-pointer"]
 for _c in ("asm", "p64", "p32"):
     CFG_FLAGS[_c + "-san"] = CFG_FLAGS[_c] + SAN
 CFG_FLAGS["tsan"] = ["-O1", "-g", "-fsanitize=thread"]
